@@ -84,7 +84,9 @@ class MultiballLock(EnableDisableMixin, ModeDevice):
     def _player_turn_starting(self, queue, **kwargs):
         del kwargs
         # reset locked balls
+        old_locked_balls = self.locked_balls
         self._locked_balls = 0
+        self.notify_virtual_change("locked_balls", old_locked_balls, self.locked_balls)
 
         # check if the lock is physically full and not virtually full and release balls in that case
         if self._physically_remaining_space <= 0 and not self.is_virtually_full:
